@@ -475,6 +475,53 @@ func ruleLintReuse(c *Ctx, r *Rep) {
 						}
 					}
 				}
+				// (a') filtering in place: y := x[:0]; y = append(y, …) overwrites x's elements - fine when x is given up for y,
+				// wrong when x itself is read again afterwards (handed to a call, ranged over, indexed)
+				appended := false
+				var appendCalls []*ssa.Call
+				var seenV = map[ssa.Value]bool{}
+				var follow func(v ssa.Value)
+				follow = func(v ssa.Value) {
+					if seenV[v] || v.Referrers() == nil {
+						return
+					}
+					seenV[v] = true
+					for _, ref := range *v.Referrers() {
+						switch u := ref.(type) {
+						case *ssa.Call:
+							if bi, isB := u.Call.Value.(*ssa.Builtin); isB && bi.Name() == "append" && len(u.Call.Args) > 0 && u.Call.Args[0] == v {
+								appended = true
+								appendCalls = append(appendCalls, u)
+								follow(u)
+							}
+						case *ssa.Phi:
+							follow(u)
+						}
+					}
+				}
+				follow(sl)
+				if appended {
+					usedAfter := ""
+					for _, ref := range *sl.X.Referrers() {
+						if ref == ssa.Instruction(sl) {
+							continue
+						}
+						ci, isCall := ref.(ssa.CallInstruction)
+						if !isCall {
+							continue
+						}
+						if bi, isB := ci.Common().Value.(*ssa.Builtin); isB && (bi.Name() == "len" || bi.Name() == "cap") {
+							continue
+						}
+						// a call that receives x and can run after an append
+						for _, ac := range appendCalls {
+							if reachableFromInstr(ac, ci) {
+								usedAfter = calleeFullName(ci) + " at " + c.Pos(ci.Pos())
+							}
+						}
+					}
+					r.Check(usedAfter == "", "filter-in-place|"+c.FuncKey(fn), c.Pos(sl.Pos()), "a slice whose elements are overwritten by appends to its [:0] prefix is not handed on afterwards", usedAfter)
+				}
 				handedOn := escapesByStore(sl, map[ssa.Value]bool{})
 				key := "truncate-reuse|" + c.FuncKey(fn)
 				if fromEarlier && handedOn {
@@ -792,6 +839,18 @@ func globalWrites(fn *ssa.Function) map[*ssa.Global]token.Pos {
 						out[g] = x.Pos()
 					}
 				}
+				// a container kept in a package-level variable and changed through its methods (sync.Map.Store, …)
+				if f := x.Call.StaticCallee(); f != nil && f.Signature.Recv() != nil && len(x.Call.Args) > 0 {
+					if g, isG := x.Call.Args[0].(*ssa.Global); isG {
+						switch f.Name() {
+						case "Load", "Range", "Len", "String", "Lock", "Unlock", "RLock", "RUnlock", "MatchString", "FindStringSubmatch", "FindAllStringSubmatch", "Match", "FindString", "NumSubexp", "SubexpNames", "Validate", "ValidateInterface":
+						default:
+							if _, isPtr := f.Signature.Recv().Type().(*types.Pointer); isPtr && (f.Pkg == nil || f.Pkg.Pkg.Path() == "sync" || f.Pkg.Pkg.Path() == "sync/atomic" || f.Pkg.Pkg.Path() == "container/list") {
+								out[g] = x.Pos()
+							}
+						}
+					}
+				}
 			}
 		}
 	}
@@ -811,6 +870,9 @@ func ruleStateless(c *Ctx, r *Rep) {
 			{"generator/config", "Validate"},
 			{"generator/config", "Merge"},
 			{"generator/config", "ParseRDNSequence"},
+			{"generator/cert", "ReadPem"},
+			{"generator/cert", "ParsePKCS8PrivateKey"},
+			{"generator/cert", "MarshalPKCS8PrivateKey"},
 		} {
 			fn := c.Func(nm.pkg, nm.name)
 			if fn == nil {
@@ -883,4 +945,49 @@ func ruleStateless(c *Ctx, r *Rep) {
 		bad = uniq(bad)
 		r.Check(len(bad) == 0, "no-global-state|"+fk, pos, "no package-level variable written, none read that is written after initialisation (reachable module functions: "+sprintf("%d", len(fns))+")", strings.Join(head(bad, 4), "; "))
 	}
+	// the module never assigns to a package-level variable of another package (time.Local, a default of a library):
+	// every function that reads it afterwards - date parsing, hashing, encoding - would silently change its answers
+	var foreign []string
+	fpos := ""
+	for _, fn := range c.Funcs {
+		for g, p := range globalWrites(fn) {
+			if g.Pkg == nil || c.isModPath(g.Pkg.Pkg.Path()) {
+				continue
+			}
+			foreign = append(foreign, sprintf("%s writes %s.%s (%s)", c.FuncKey(fn), g.Pkg.Pkg.Path(), g.Name(), c.Pos(p)))
+			fpos = c.Pos(p)
+		}
+	}
+	sort.Strings(foreign)
+	r.Check(len(foreign) == 0, "no-foreign-global-write", fpos, "no package-level variable of the standard library or of a dependency is assigned", strings.Join(head(foreign, 3), "; "))
+}
+
+// reachableFromInstr: instruction b can execute after instruction a (same block later, or in a block reachable from a's).
+func reachableFromInstr(a, b ssa.Instruction) bool {
+	if a.Block() == b.Block() {
+		for _, ins := range a.Block().Instrs {
+			if ins == a {
+				return true // a comes first
+			}
+			if ins == b {
+				break
+			}
+		}
+		// b precedes a in the block: reachable only round a loop
+	}
+	seen := map[*ssa.BasicBlock]bool{}
+	stack := append([]*ssa.BasicBlock{}, a.Block().Succs...)
+	for len(stack) > 0 {
+		x := stack[len(stack)-1]
+		stack = stack[:len(stack)-1]
+		if seen[x] {
+			continue
+		}
+		seen[x] = true
+		if x == b.Block() {
+			return true
+		}
+		stack = append(stack, x.Succs...)
+	}
+	return false
 }
